@@ -35,7 +35,7 @@ fn main() {
         }
         i += 1;
     }
-    if prop != "SHOW" && prop != "PROBE" && prop != "TRANSLATE" && prop != "TABREF" && prop != "X18" && prop != "IMG" { std::fs::create_dir_all(&outdir).unwrap(); }
+    if prop != "SHOW" && prop != "PROBE" && prop != "TRANSLATE" && prop != "TABREF" && prop != "X18" && prop != "REPARSE" && prop != "REPEAT" && prop != "FLAKY" && prop != "IMG" { std::fs::create_dir_all(&outdir).unwrap(); }
     // panics are outcomes, not noise
     if std::env::var("QV_DEBUG").is_err() { common::install_panic_recorder(); }
     if prop == "IMG" {
@@ -50,6 +50,69 @@ fn main() {
         return;
     }
     if prop == "PROBE" { common::install_panic_recorder(); c17::probe(&outdir, args.get(3).map(|s| s.as_str()).unwrap_or("postgresql")); return; }
+    if prop == "FLAKY" {
+        use qrlew::data_type::{function::{self, Function as _}, DataType};
+        use qrlew::expr::Expr;
+        let fl = DataType::float_values((1..=10).map(|x| x as f64).collect::<Vec<f64>>());
+        let it = DataType::integer_interval(1, 10);
+        let sets = vec![("float-values + int-interval", DataType::structured([("0", fl.clone()), ("1", it.clone())])), ("opt", DataType::structured([("0", DataType::optional(fl.clone())), ("1", DataType::optional(it.clone()))]))];
+        for (nm, set) in sets.iter() {
+            let first = function::plus().super_image(set).map(|t| t.to_string());
+            let mut seen = std::collections::BTreeMap::new();
+            for _ in 0..20000 { let t = function::plus().super_image(set).map(|t| t.to_string()); *seen.entry(format!("{:?}", t)).or_insert(0) += 1; }
+            println!("plus on {}: first {:?}; distinct outcomes {:?}", nm, first, seen);
+        }
+        {
+            let args = [DataType::optional(fl.clone()), DataType::optional(it.clone())];
+            let mut seen = std::collections::BTreeMap::new();
+            for _ in 0..20000 { let t = qrlew::expr::function::Function::Plus.super_image(&args).map(|t| t.to_string()); *seen.entry(format!("{:?}", t)).or_insert(0) += 1; }
+            println!("expr-level function Plus: {:?}", seen);
+            let set = DataType::structured_from_data_types(args.clone());
+            let mut seen = std::collections::BTreeMap::new();
+            for _ in 0..20000 { let t = set.flatten_optional().to_string(); *seen.entry(t).or_insert(0) += 1; }
+            println!("flatten_optional: {:?}", seen);
+            let inner = DataType::structured_from_data_types([fl.clone(), it.clone()]);
+            let mut seen = std::collections::BTreeMap::new();
+            for _ in 0..20000 { let t = function::plus().super_image(&inner).map(|t| t.to_string()); *seen.entry(format!("{:?}", t)).or_insert(0) += 1; }
+            println!("plus on flattened: {:?}", seen);
+        }
+        let st = DataType::structured([("e3", DataType::optional(fl.clone())), ("c2", DataType::optional(it.clone()))]);
+        let e = Expr::plus(Expr::col("e3"), Expr::col("c2"));
+        let mut seen = std::collections::BTreeMap::new();
+        for _ in 0..20000 { let t = e.super_image(&st).map(|t| t.to_string()); *seen.entry(format!("{:?}", t)).or_insert(0) += 1; }
+        println!("expr: {:?}", seen);
+        return;
+    }
+    if prop == "REPEAT" {
+        use qrlew::relation::Variant as _;
+        let w = world::world();
+        let n: usize = args.get(3).and_then(|s| s.parse().ok()).unwrap_or(1000);
+        let first = world::to_relation(&w, &outdir).unwrap();
+        let (d0, t0) = (format!("{:?}", first), c08::render(&first));
+        for i in 0..n {
+            let rel = world::to_relation(&w, &outdir).unwrap();
+            let (d, t) = (format!("{:?}", rel), c08::render(&rel));
+            if d != d0 || t != t0 || rel != first {
+                println!("differs at {}: eq={} debug_eq={} text_eq={}", i, rel == first, d == d0, t == t0);
+                { let (a, b): (Vec<&str>, Vec<&str>) = (d0.split(',').collect(), d.split(',').collect()); for (x, y) in a.iter().zip(b.iter()) { if x != y { println!("{} | {}", x, y); } } }
+                return;
+            }
+        }
+        println!("{} compilations identical", n);
+        return;
+    }
+    if prop == "REPARSE" {
+        use qrlew::relation::Variant as _;
+        let w = world::world();
+        let n: usize = args.get(3).and_then(|s| s.parse().ok()).unwrap_or(0);
+        let mut r = common::Rng::new(5);
+        for _ in 0..n { let mut g = world::QGen::new(&mut r, &w.specs); g.bool_items = true; let q = g.query(2).0; let _ = std::panic::catch_unwind(std::panic::AssertUnwindSafe(|| world::to_relation(&w, &q))); }
+        let rel = world::to_relation(&w, &outdir).unwrap();
+        let text = c08::render(&rel);
+        let back = world::to_relation(&w, &text).unwrap();
+        println!("{}\n{}\n{}", rel.schema(), back.schema(), text);
+        return;
+    }
     if prop == "X18" { c18::show(&outdir, args.get(3).and_then(|s| s.parse().ok()).unwrap_or(8)); return; }
     if prop == "TABREF" { c15::tabref(&outdir, args.get(3).map(|s| s.as_str()).unwrap_or("sch.t1")); return; }
     if prop == "TRANSLATE" { c17::show(&outdir, args.get(3).map(|s| s.as_str()).unwrap_or("postgresql")); return; }
@@ -91,6 +154,7 @@ fn main() {
         "C18" => c18::run(&outdir, seed, thorough),
         p if p.starts_with("C18@") => c18::child(p[4..].parse().unwrap(), &outdir, seed, thorough),
         "GEN-DIALECTS" => { c17::generate(&outdir); return; }
+        "GEN-PARENS" => { if let Err(e) = c08::generate_parens(&outdir) { eprintln!("{}", e); std::process::exit(1); } return; }
         "C04" => dp::run_c04(&outdir, seed, thorough),
         "GEN-FNMETA" => { if let Err(e) = c14::generate(&outdir) { eprintln!("{}", e); std::process::exit(1); } return; }
         "GEN-RULES" => { if let Err(e) = rules::generate(&outdir) { eprintln!("{}", e); std::process::exit(1); } return; }
